@@ -1,6 +1,7 @@
 import NeatviVerif.Drive.Ex
 import NeatviVerif.Spec.RegexSem
 import NeatviVerif.Spec.Zipper
+import NeatviVerif.Spec.Layout
 /-!
 # Reference judgements of the ex-level properties on the implementation's dumped states
 
@@ -330,6 +331,19 @@ def judge06Step (j : J06) (prev next : Step) (ln : Bytes) (txt : Bytes) (icase :
       else []
     { st := if e1.isEmpty then s' else (s'.resync next),
       errs := j.errs ++ e1 ++ e2 ++ e3.take 1 }
+
+/-! ### C16: edits keep the text valid UTF-8 -/
+
+/-- is a byte string valid UTF-8 (re-encoding its reference decoding gives it back)? -/
+def validU8 (s : Bytes) : Bool := Neatvi.Spec.encStr (Neatvi.Spec.decodeStr s.length s) == s
+
+/-- a command whose own text is valid UTF-8, run on a valid buffer with valid registers and files, leaves a valid buffer -/
+def judge16Step (prev next : Step) (ln txt : Bytes) : List String :=
+  if validU8 prev.text && validU8 ln && validU8 txt && prev.regs.all (fun r => validU8 r.2.2) &&
+     prev.files.all (fun f => match f.2 with | some d => validU8 d | none => true) &&
+     prev.bufs.all (fun b => validU8 b.text) && !validU8 next.text then
+    [s!"clause=edits_keep_valid_utf8 cmd={str ln} before={bytesHex prev.text} after={bytesHex next.text}"]
+  else []
 
 /-! ### C14: substitute -/
 
